@@ -160,6 +160,16 @@ pub fn run(a: &Args) {
             check_case(&mut col, &arena, vs, &apis, &mut tr);
         }
     });
+    // element counts across the 16-bit boundary: one API pair is enough (the counters of the
+    // iterative skipper and of the container readers are what matters)
+    let big_arena = Arena::new(16 << 20);
+    spaces::space_large(&cfg, &mut |space, v| {
+        if col.next_case(space) {
+            col.nontrivial += 1;
+            let apis = crate::c01::apis(&[v], false);
+            check_case(&mut col, &big_arena, &[v], &apis[..1], &mut tr);
+        }
+    });
     col.states = tr.states.clone();
     col.transitions = tr.transitions.clone();
     col.finish(&a.out);
